@@ -3,6 +3,10 @@
 use crate::core::Ctx;
 
 pub mod c01;
+pub mod c19;
+pub mod c18;
+pub mod c17;
+pub mod c16;
 pub mod container_util;
 pub mod c11;
 pub mod c10;
@@ -72,7 +76,7 @@ pub const DEFAULT: PropInfo = PropInfo {
     watchdog_s: 120,
 };
 
-pub static REGISTRY: &[&PropInfo] = &[&c01::INFO, &c01::INFO_MIRI, &c02::INFO, &c05::INFO, &c06::INFO, &c14::INFO, &c15::INFO, &c32::INFO, &c27::INFO, &c28::INFO, &c29::INFO, &c30::INFO, &c31::INFO, &c20::INFO, &c21::INFO, &c22::INFO, &c23::INFO, &c24::INFO, &c25::INFO, &c26::INFO, &c35::INFO, &c03::INFO, &c12::INFO, &c13::INFO, &c04::INFO, &c07::INFO, &c33::INFO, &c34::INFO, &c08::INFO, &c09::INFO, &c10::INFO, &c11::INFO];
+pub static REGISTRY: &[&PropInfo] = &[&c01::INFO, &c01::INFO_MIRI, &c02::INFO, &c05::INFO, &c06::INFO, &c14::INFO, &c15::INFO, &c32::INFO, &c27::INFO, &c28::INFO, &c29::INFO, &c30::INFO, &c31::INFO, &c20::INFO, &c21::INFO, &c22::INFO, &c23::INFO, &c24::INFO, &c25::INFO, &c26::INFO, &c35::INFO, &c03::INFO, &c12::INFO, &c13::INFO, &c04::INFO, &c07::INFO, &c33::INFO, &c34::INFO, &c08::INFO, &c09::INFO, &c10::INFO, &c11::INFO, &c16::INFO, &c17::INFO, &c18::INFO, &c19::INFO];
 
 pub fn lookup(id: &str) -> Option<&'static PropInfo> {
     REGISTRY.iter().copied().find(|p| p.id == id)
